@@ -43,6 +43,8 @@ def run(idx, rep, tier):
     mods = frozenset(idx.closure([m for m in idx.optional_modules() if m.endswith(".svd.svd")]))
     res = Resolver(idx, mods)
     rules = res.rules_of("svd")
+    from sa.autorule import arity_obligations
+    arity_obligations(idx, rep, rules)
     if not rules:
         rep.missing_anchor("dispatched function svd")
     for rule in rules:
